@@ -72,6 +72,13 @@ def draw_config(rng: random.Random, **over):
     return cfg
 
 
+class _NameOrderedSet(set):
+    """a set of classes that iterates in name order (not in address order)"""
+
+    def __iter__(self):
+        return iter(sorted(set.__iter__(self), key=lambda c: (c.__module__, c.__qualname__)))
+
+
 class WorldB:
     def __init__(self, ctx, cfg):
         self.ctx = ctx
@@ -150,6 +157,9 @@ class WorldB:
         ip = CONSUMER_IPS[idx]
         with node(ip):
             comp = default_components_factory()
+            # the library keeps the service handler classes in a set (hashed by address): its iteration order decides how
+            # many lines _mk_hosted_service_client executes, i.e. it is a source of nondeterminism -> fixed order
+            comp.service_handlers = _NameOrderedSet(comp.service_handlers)
             if cfg.get('ref_param'):
                 from sdc11073.consumer.subscription import ClientSubscriptionManagerReferenceParams
                 comp.subscription_manager_class = ClientSubscriptionManagerReferenceParams
